@@ -164,7 +164,8 @@ def gen_circuit_case(rng, spec):
     if dom:
         net = netgen.rand_net(rng, shape=rng.choice(netgen.SHAPES), types=FORMAT_TYPES, max_arity=2, const_operands=False,
                               min_in=0 if rng.random() < 0.05 else 1, max_in=rng.choice([1, 2, 4, 5, 8]),
-                              max_g=spec.get('max_g', 12), n_out=rng.choice([0, 1, 1, 2, 3, 5]))
+                              max_g=spec.get('max_g', 12), n_out=rng.choice([0, 1, 1, 2, 3, 5]),
+                              label_style=rng.choice(['plain', 'plain', 'digits', 'keyword', 'odd', 'odd', 'derived']))
         # constants must have the format's arity (2)
         g2 = {}
         labels = []
